@@ -118,6 +118,42 @@ Proof. exact sessions_no_reset_refuted. Qed.
 Print Assumptions C09_sessions_no_reset_refuted.
 
 (* ---------------------------------------------------------------------------------- *)
+(* One request per registration, whatever the plugin answers.  plugin.synchronize tries again only
+   when the SENDING side rejected a message as oversized (nothing was delivered); an error that comes
+   back from the plugin after a message was delivered - whatever its kind, a gRPC status
+   ResourceExhausted included - ends the synchronisation (recalcObjsPerSyncMsg returns an error for
+   everything but the send-side *ttrpc.OversizedMessageErr).  Both statements need NO hypothesis: they
+   hold for any transport behaviour, any plugin end / handler, any recalculation function, any fuel.
+
+   (1) Nothing is sent after a message not flagged More. *)
+Theorem C09_no_resend :
+  forall (A B U PS : Type) (xmit : list A -> list B -> bool -> xres)
+         (peer : PS -> list A -> list B -> bool -> PS * option (reply U))
+         (rc : Z -> Z -> Z -> Z -> option (Z * Z)) (fuel : nat) (pods : list A) (ctrs : list B) (st : PS),
+  no_resend (chunks_flags (sent_of (synchronize xmit peer rc fuel pods ctrs st))) = true.
+Proof. exact synchronize_no_resend. Qed.
+Print Assumptions C09_no_resend.
+
+(* (2) Against the stub, after close(), whatever earlier connections left in the stub value and whatever
+   the handler returns - updates, a gRPC status of any code, any other error: one synchronize call
+   invokes the handler at most once, and then with exactly the runtime's state; delivered = invoked
+   once and the handler succeeded; if the handler returned an error the synchronisation failed
+   (FPeerErr; by C09_failed_not_activated the plugin is not activated) and nothing was sent again. *)
+Theorem C09_handler_at_most_once :
+  forall (A B U : Type) (he : list A -> list B -> list U + herror)
+         (xmit : list A -> list B -> bool -> xres) (rc : Z -> Z -> Z -> Z -> option (Z * Z))
+         (fuel : nat) (pods : list A) (ctrs : list B) (st : stub_state A B),
+  match synchronize xmit (stub_sync (Some (forget_error he))) rc fuel pods ctrs (stub_close close_resets_sync st) with
+  | Delivered _ u st' => ss_calls st' = ss_calls st ++ [(pods, ctrs)] /\ he pods ctrs = inl u
+  | Failed why _ st' =>
+      ss_calls st' = ss_calls st \/
+      (why = FPeerErr /\ ss_calls st' = ss_calls st ++ [(pods, ctrs)] /\ exists e, he pods ctrs = inr e)
+  | Panic _ | OutOfFuel _ => True
+  end.
+Proof. exact @handler_at_most_once. Qed.
+Print Assumptions C09_handler_at_most_once.
+
+(* ---------------------------------------------------------------------------------- *)
 (* Delivery (interpretation I4 of DESIGN 2.4).  If every group of at most minObjsPerMsg
    objects - some consecutive pods and some consecutive containers - fits into one message,
    the transport fails only with oversized-message errors (time-outs are outside the
@@ -310,3 +346,18 @@ Example C09_ex_restart :
                 [7] [8; 9] (stub_close close_resets_sync st1) = Delivered s [1; 2] st2 /\
     ss_calls st2 = [([7], [8; 9])].
 Proof. eexists. eexists. eexists. vm_compute. repeat split. Qed.
+
+(* a handler that answers its one invocation with a gRPC status ResourceExhausted (code 8), the state
+   split into three messages (limit 1500): the third message carries 13 objects - more than the minimum
+   chunk - the handler fails, the synchronisation fails with exactly these three messages sent, the
+   handler has run once on the whole state, and the plugin is not activated *)
+Definition ex_busy : list Z -> list Z -> list Z + herror := fun _ _ => inr (HStatus 8).
+Example C09_ex_handler_error :
+  exists s st',
+    synchronize (xmit_size id id 49 2 1500) (stub_sync (Some (forget_error ex_busy))) recalc (sync_fuel ex_pods ex_ctrs) ex_pods ex_ctrs stub_init
+      = Failed FPeerErr s st' /\
+    map (fun c : chunk Z Z => (len (fst (fst c)), len (snd (fst c)), snd c)) s
+      = [(1, 14, true); (1, 14, true); (1, 12, false)] /\
+    ss_calls st' = [(ex_pods, ex_ctrs)] /\
+    accept_external (fun l => l) true [] tt (outcome_ok (Failed (U := Z) FPeerErr s st')) = [].
+Proof. eexists. eexists. vm_compute. repeat split. Qed.
